@@ -52,6 +52,13 @@ package config
 //@   ensures [C17] old(aload(p.value).stagedValue.some) ==> aload(p.value).comittedValue.value == old(aload(p.value).stagedValue.value.value) && aload(p.value).comittedValue.overwritten.some == old(aload(p.value).stagedValue.value.overwritten.some) && aload(p.value).comittedValue.overwritten.value == old(aload(p.value).stagedValue.value.overwritten.value) && !aload(p.value).stagedValue.some
 //@   ensures [C17] !old(aload(p.value).stagedValue.some) ==> aload(p.value).comittedValue.value == old(aload(p.value).comittedValue.value) && aload(p.value).comittedValue.overwritten.some == old(aload(p.value).comittedValue.overwritten.some)
 
+// An ill-typed value is refused before anything is staged: no cell changes, no listener is told.
+//@ props C18 C19 C16
+//@ func ConfigProp.UnmarshalJSONStaged
+//@   nopanic
+//@   requires aset(p.value)
+//@   ensures [C18] result != nil ==> unchanged("atomicValue") && (forall f int :: gocalls(f) == old(gocalls(f)))
+
 // Saving a property writes its base value: a command-line override is never written into the file.
 //@ props C17 C18 C16
 //@ func ConfigProp.MarshalJSON
